@@ -238,6 +238,18 @@ func ZZ_C03_Pipeline(ops, kind, entry, multi int) {
 	{
 		pv := vrt.Panics(func() { pl.AddLast(&zzPNone{}) })
 		vrt.Assert(pv != nil && !vrt.IsRuntimeError(pv), "handler-without-interface-rejected")
+		// also as the last of several handlers in one call, through each building operation: the whole call is
+		// refused, the handlers in front of the bad one are not left behind
+		good := &zzPE{zzH{id: 99, rec: rec}}
+		switch vrt.Choose(3) {
+		case 0:
+			pv = vrt.Panics(func() { pl.AddLast(good, &zzPNone{}) })
+		case 1:
+			pv = vrt.Panics(func() { pl.AddFirst(good, &zzPNone{}) })
+		default:
+			pv = vrt.Panics(func() { pl.AddHandler(0, good, &zzPNone{}) })
+		}
+		vrt.Assert(pv != nil && !vrt.IsRuntimeError(pv), "handler-without-interface-rejected")
 	}
 	// ---- structure
 	n := len(model)
@@ -416,4 +428,77 @@ func ZZ_C03_Pipeline(ops, kind, entry, multi int) {
 		vrt.Assert(tr.closes == 0 && len(tr.log) == 0, "no-side-effect")
 	}
 	vrt.Reach("c03-done")
+}
+
+// zzInboundTrace is the model's trace of one inbound event of the given kind fired at the head.
+func zzInboundTrace(model []zzM, kind int) []int {
+	var want []int
+	for i := 1; i < len(model)-1; i++ {
+		if model[i].caps[kind] {
+			want = append(want, model[i].id)
+			if !model[i].fwd {
+				break
+			}
+		}
+	}
+	return want
+}
+
+// ZZ_C03_LateInsert: the pipeline is built, an inbound event travels through it, then one more handler is inserted
+// (first, in the middle or last) and the same kind of event is fired again: the second event visits the handlers of
+// the pipeline as it is now. (A pipeline is extended while it is in use: a handshake handler that installs a codec.)
+//
+//	kind: 0 active, 1 read, 5 user event
+func ZZ_C03_LateInsert(kind int) {
+	rec := &zzRec{}
+	tr := newZZTransport()
+	pl := NewPipeline()
+	ch := zzNewChannel(pl, tr, 0, false)
+	_ = ch
+	model := []zzM{{id: -1}, {id: -2}}
+	model[0].caps[zzKWrite] = true
+	model[1].caps[zzKException] = true
+	for i := 0; i < 2; i++ {
+		m := zzMake(i, kind, rec)
+		pl.AddLast(m.h)
+		model = zzInsert(model, len(model)-1, m)
+	}
+	fire := func() {
+		switch kind {
+		case zzKActive:
+			pl.FireChannelActive()
+		case zzKRead:
+			pl.FireChannelRead([]byte{0x5a})
+		default:
+			pl.FireChannelEvent(7)
+		}
+	}
+	check := func(label string) {
+		want := zzInboundTrace(model, kind)
+		vrt.Assert(len(rec.visits) == len(want), label+"-trace-length")
+		for i := range want {
+			if i < len(rec.visits) {
+				vrt.Assert(rec.visits[i].id == want[i] && rec.visits[i].kind == kind, label+"-trace-order")
+			}
+		}
+	}
+	fire()
+	check("first")
+	m := zzMake(2, kind, rec)
+	switch vrt.Choose(3) {
+	case 0:
+		pl.AddFirst(m.h)
+		model = zzInsert(model, 1, m)
+	case 1:
+		pl.AddHandler(1, m.h) // behind the first user handler
+		model = zzInsert(model, 2, m)
+	default:
+		pl.AddLast(m.h)
+		model = zzInsert(model, len(model)-1, m)
+	}
+	vrt.Assert(pl.Size() == len(model), "size")
+	rec.visits = nil
+	fire()
+	check("after-late-insert")
+	vrt.Reach("c03-late-insert-done")
 }
